@@ -157,7 +157,8 @@ class C06(Check):
             self.refs[(key, di, json.dumps(rop, sort_keys=True))] = res
 
     def ref_ops(self, entry):
-        out = [{'api': 'iter_errors'}, {'api': 'to_json'}, {'api': 'to_json_strict'}, {'api': 'to_json_skip'}]
+        out = [{'api': 'iter_errors'}, {'api': 'to_json'}, {'api': 'to_json_strict'}, {'api': 'to_json_skip'},
+               {'api': 'valid_twice'}]
         for p in entry.family.paths:
             out.append({'api': 'iter_decode_path', 'path': p})
         out.append({'api': 'res_all'})
@@ -195,6 +196,11 @@ class C06(Check):
                 return {'k': 'ok', 'v': ops.errors_canon(list(schema.iter_errors(source)), lazy)}
             if api == 'is_valid':
                 return {'k': 'ok', 'v': schema.is_valid(source)}
+            if api == 'valid_twice':
+                # the same resource object asked twice, then validated in full: a verdict must not use it up
+                a = schema.is_valid(source)
+                b = schema.is_valid(source)
+                return {'k': 'ok', 'v': [a, b, not list(schema.iter_errors(source))]}
             if api == 'to_json':
                 r = xmlschema.to_json(source, schema=schema, validation='lax')
                 if isinstance(r, tuple):
@@ -245,7 +251,7 @@ class C06(Check):
         data = e.docs[di].data
         depth = 1 if focus else rng.choice([1, 1, 1, 1, 2, 3])
         apis = ['iter_errors', 'iter_errors', 'is_valid', 'to_json', 'to_json', 'to_json_strict', 'to_json_skip',
-                'res_depth', 'res_iter', 'res_ns', 'res_loc']
+                'res_depth', 'res_iter', 'res_ns', 'res_loc', 'valid_twice']
         if e.family.paths:
             apis += ['iter_decode_path', 'res_find']
         api = rng.choice(['iter_errors', 'is_valid']) if focus else rng.choice(apis)
@@ -379,6 +385,13 @@ class C06(Check):
             base.update(clause='no-raise', cls=ref['cls'], eager_reason=reason(ref))
             return base
         g, r = got['v'], ref['v']
+        if api == 'valid_twice':
+            # self-consistency of the three answers on ONE lazy resource (their agreement with the eager verdict is
+            # the is_valid API's question)
+            if len(set(g)) != 1:
+                base.update(clause='reused-resource-answers-differ', answers=g)
+                return base
+            return None
         if api == 'is_valid':
             if g != r:
                 base.update(clause='verdict', lazy=g, eager=r)
